@@ -21,6 +21,10 @@ class QueueHooks(QHooks):
                          'G:todofn', 'G:pidfn', 'G:received', 'G:receivedlen'])
     inline_depth = 4
     precise = frozenset(['L:len'])
+    ADDR = None         # the address length limit (set by the caller from the macro)
+
+    def precise_arith(self, path):
+        return '::' in path or super().precise_arith(path)         # every local counter is concrete (address lengths up to ADDR, the pid-file retries)
 
     def __init__(self, R):
         self.R = R          # dict of rule objects
@@ -315,8 +319,14 @@ class QueueHooks(QHooks):
                     nxt = 'EXTRA'
                 else:
                     nxt = env
-                outs.append(Outcome(ret=fs(1), sets={chp: vals, '$env': fs(nxt), '$pending': fs(0 if nxt == 'DONE' or nxt == 'BADLETTER' else 1)},
-                                    log='read envelope byte %s -> grammar %s' % (cls, nxt)))
+                # bytes of the current address read so far, the terminating NUL included
+                al = self.flag(E, 'alen') or 0
+                al2 = (al + 1) if env == 'ADDR' else 0
+                if env == 'ADDR' and cls == 'NUL' and self.ADDR is not None:
+                    self.site('C01.7-envelope-gate', 'exit-11-iff-length>=ADDR@accepted', x, al2 <= self.ADDR,
+                              'an address of %d bytes (with its NUL) is accepted; the limit is ADDR = %d' % (al2, self.ADDR), E)
+                outs.append(Outcome(ret=fs(1), sets={chp: vals, '$env': fs(nxt), '$pending': fs(0 if nxt == 'DONE' or nxt == 'BADLETTER' else 1), '$alen': fs(min(al2, 5000))},
+                                    log=('read envelope byte %s -> grammar %s' % (cls, nxt)) if (al2 < 3 or cls != 'other') else None))
             return outs
         if chp:
             outs.append(Outcome(ret=fs(1), havoc=(chp.split('.')[0],)))
@@ -343,6 +353,11 @@ class QueueHooks(QHooks):
                       'exit status %d is not in the documented failure set' % c, E)
             env = E.get('$env')
             env = next(iter(env)) if env else 'START'
+            if c == 11 and self.ADDR is not None:
+                al = self.flag(E, 'alen') or 0
+                self.site('C01.7-envelope-gate', 'exit-11-iff-length>=ADDR@refused', x, env == 'ADDR' and al == self.ADDR,
+                          'exit 11 after %d bytes of an address without its NUL (grammar state %s); documented: exactly when ADDR = %d bytes were read and none was NUL' % (al, env, self.ADDR), E)
+                self.n11 = getattr(self, 'n11', 0) + 1
             if c == 91:
                 self.site('C01.7-envelope-gate', 'exit91-only-on-bad-record-letter', x, env == 'BADLETTER',
                           'exit 91 with the grammar in state %s' % env, E)
@@ -385,7 +400,8 @@ def queue_sites(db, rep):
     main = prog.fn('main', 'qmail-queue.c')
     H = QueueHooks({})
     H.precise = frozenset(counter_vars(main, macro_const(db, 'qmail-queue.c', 'ADDR')))
-    eng = Engine(db, prog, H)
+    H.ADDR = macro_const(db, 'qmail-queue.c', 'ADDR')
+    eng = Engine(db, prog, H, max_states=1500000)
     eng.run(main)
     rep.count_states(eng.states, eng.transitions)
     if H.commits == 0:
@@ -411,7 +427,8 @@ def run(ctx):
     }
     H = QueueHooks(rules)
     H.precise = frozenset(counter_vars(main, macro_const(db, 'qmail-queue.c', 'ADDR')))
-    eng = Engine(db, prog, H)
+    H.ADDR = macro_const(db, 'qmail-queue.c', 'ADDR')
+    eng = Engine(db, prog, H, max_states=1500000)
     eng.run(main)
     rep.count_states(eng.states, eng.transitions)
     for (rule, inst), (ok, where, detail, path) in sorted(H.seen_sites.items()):
@@ -509,18 +526,9 @@ def run(ctx):
     # --- address bound: loops reading an address are bounded by ADDR and overflow exits 11
     r = rules['C01.7-envelope-gate']
     addr = macro_const(db, 'qmail-queue.c', 'ADDR')
-    from qv.lib import consistent_values
-    n = 0
-    uni = range(0, 2 * addr + 10)
-    for c in main.calls(('die', '_exit')):
-        if c.args and c.args[0].const == 11:
-            n += 1
-            cv = consistent_values(main, c, uni)
-            okg = any(vals == {v for v in uni if v >= addr} for vals in cv.values())
-            r.check(okg, 'exit-11-iff-length>=ADDR@%d' % n, c.where, 'exit 11 must be taken exactly for address lengths >= ADDR (%d); guards admit %s' %
-                    (addr, {k: (min(v), max(v)) if v else None for k, v in cv.items()}))
-    if n < 2:
-        r.bad('two-address-length-gates', 'qmail-queue.c:main', 'expected an exit-11 length gate after the sender and after each recipient, found %d' % n)
+    # (a loop without its gate shows as an over-long address being accepted: instance exit-11-iff-length>=ADDR@accepted, checked at every address end)
+    if getattr(H, 'n11', 0) < 1 and all(v[0] for v in H.seen_sites.values()):
+        raise AnalysisBroken('qmail-queue main: exit 11 for an over-long address was never reached')
     # every 1-byte envelope read inside a loop sits in a loop bounded by len < ADDR, or is the record-letter read
     # (decided by the ESP run with len abstracted; see the thorough tier for the exact count)
 
